@@ -35,7 +35,7 @@ man = {
         "guard": "pdf_rs_pdf_verif",
         "enable": "RUSTFLAGS=\"--cfg pdf_rs_pdf_verif\" (set in /verif/harness/.cargo/config.toml; the harness compiles /repo/pdf as a path dependency)",
         "baseline_off_cmd": "cd /repo && cargo test --workspace --no-fail-fast --offline",
-        "source_commits": json.load(open(os.path.join(root, "hooks.json"))) if os.path.exists(os.path.join(root, "hooks.json")) else [],
+        "source_commits": [(h["commit"] if isinstance(h, dict) else h) for h in json.load(open(os.path.join(root, "hooks.json")))] if os.path.exists(os.path.join(root, "hooks.json")) else [],
         "add_only": True,
     },
     "engines": [{
